@@ -782,3 +782,949 @@ theorem innerPoll_not_ready_keeps (s s' : LSt) (i : Nat) (r : PollRes) (b : Bool
     · cases h
 
 end TR.Stack
+
+/-! ## configured layers: what `denote` says -/
+
+namespace TR.Stack
+
+theorem base_calls (k : Nat) (s : List Out) (a : Ans) (k' : Nat) (s' : List Out) (h : base k s = some (a, k', s')) :
+    k' = k + 1 ∧ s' = s.drop 1 := by
+  cases s with
+  | nil => simp [base] at h; obtain ⟨_, rfl, rfl⟩ := h; simp
+  | cons o tl =>
+    cases o with
+    | ok => simp [base] at h; obtain ⟨_, rfl, rfl⟩ := h; simp
+    | err kd => simp [base] at h; obtain ⟨_, rfl, rfl⟩ := h; simp
+    | panic => simp [base] at h
+    | never => simp [base] at h
+
+theorem retryGo_zero (inner : Svc) (p : Pred) : retryGo inner p 0 = inner := by
+  funext k s; simp [retryGo]
+
+/-- the retry loop over the scripted service: at least one call, at most `left + 1`, and the answer is the LAST call's,
+as the scripted service gave it -/
+theorem retryGo_base (p : Pred) (left : Nat) : ∀ (k : Nat) (s : List Out) (a : Ans) (k' : Nat) (s' : List Out),
+    retryGo base p left k s = some (a, k', s') →
+    k < k' ∧ k' ≤ k + left + 1 ∧ base (k' - 1) (s.drop (k' - 1 - k)) = some (a, k', s') := by
+  induction left with
+  | zero =>
+    intro k s a k' s' h
+    rw [retryGo_zero] at h
+    obtain ⟨hk, _⟩ := base_calls k s a k' s' h
+    subst hk
+    refine ⟨by omega, by omega, ?_⟩
+    simpa using h
+  | succ n ih =>
+    intro k s a k' s' h
+    cases hb : base k s with
+    | none => simp [retryGo, hb] at h
+    | some r =>
+      obtain ⟨a1, k1, s1⟩ := r
+      obtain ⟨hk1, hs1⟩ := base_calls k s a1 k1 s1 hb
+      have stop : retryGo base p (n + 1) k s = some (a1, k1, s1) → k < k' ∧ k' ≤ k + (n + 1) + 1 ∧
+          base (k' - 1) (s.drop (k' - 1 - k)) = some (a, k', s') := by
+        intro h'
+        rw [h'] at h
+        simp only [Option.some.injEq, Prod.mk.injEq] at h
+        obtain ⟨rfl, rfl, rfl⟩ := h
+        subst hk1
+        refine ⟨by omega, by omega, ?_⟩
+        simpa using hb
+      cases a1 with
+      | ok o => exact stop (by simp [retryGo, hb])
+      | lit t => exact stop (by simp [retryGo, hb])
+      | err e =>
+        by_cases hp : p.holds e.kind = true
+        · have h2 : retryGo base p n k1 s1 = some (a, k', s') := by
+            simpa [retryGo, hb, hp] using h
+          obtain ⟨h3, h4, h5⟩ := ih k1 s1 a k' s' h2
+          subst hk1 hs1
+          refine ⟨by omega, by omega, ?_⟩
+          have e1 : k' - 1 - k = 1 + (k' - 1 - (k + 1)) := by omega
+          rw [e1, ← List.drop_drop]
+          exact h5
+        · exact stop (by simp [retryGo, hb, hp])
+
+/-- … and when the service keeps failing with errors the predicate accepts, every permitted attempt is made -/
+theorem retryGo_base_exhausts (p : Pred) (left : Nat) : ∀ (k : Nat) (s : List Out),
+    left + 1 ≤ s.length → (∀ o ∈ s.take (left + 1), ∃ kd, o = Out.err kd ∧ p.holds kd = true) →
+    ∃ a s', retryGo base p left k s = some (a, k + left + 1, s') := by
+  induction left with
+  | zero =>
+    intro k s hl hall
+    cases s with
+    | nil => simp at hl
+    | cons o tl =>
+      obtain ⟨kd, rfl, _⟩ := hall o (by simp)
+      exact ⟨.err ⟨"", kd, k + 1, ""⟩, tl, by simp [retryGo, base]⟩
+  | succ n ih =>
+    intro k s hl hall
+    cases s with
+    | nil => simp at hl
+    | cons o tl =>
+      obtain ⟨kd, rfl, hp⟩ := hall o (by simp)
+      obtain ⟨a, s', h⟩ := ih (k + 1) tl (by simpa using hl) (by
+        intro o ho; exact hall o (by simp [List.take_succ_cons, ho]))
+      refine ⟨a, s', ?_⟩
+      simp only [retryGo, base, hp, if_true]
+      rw [h]
+      have e : k + 1 + n + 1 = k + (n + 1) + 1 := by omega
+      rw [e]
+
+end TR.Stack
+
+namespace TR.Stack
+
+/-- the answer that has passed the layers `ls`: still the same call's, of the same kind -/
+theorem passAll_shape (ls : List LCfg) (o : Out) (n : Nat) :
+    (o = .ok → passAll ls (answerOf o n) = .ok n) ∧
+    (∀ kd, o = .err kd → ∃ e, passAll ls (answerOf o n) = .err e ∧ e.kind = kd ∧ e.ord = n) := by
+  induction ls with
+  | nil =>
+    refine ⟨?_, ?_⟩
+    · intro h; subst h; rfl
+    · intro kd h; subst h; exact ⟨_, rfl, rfl, rfl⟩
+  | cons l tl ih =>
+    refine ⟨?_, ?_⟩
+    · intro h
+      have := ih.1 h
+      simp only [passAll, List.foldr_cons] at this ⊢
+      rw [this]
+      cases l <;> rfl
+    · intro kd h
+      obtain ⟨e, he, hk, ho⟩ := ih.2 kd h
+      simp only [passAll, List.foldr_cons] at he ⊢
+      rw [he]
+      cases l <;> first
+        | exact ⟨e, rfl, hk, ho⟩
+        | exact ⟨_, rfl, hk, ho⟩
+
+/-- **Every stack of layers whose protective conditions the request does not trigger — whatever their configurations —
+forwards the request exactly once and hands back that call's answer, unchanged but for the pass-through variants.** -/
+theorem denote_transparent (ctx : Ctx) (o : Out) (ho : o = .ok ∨ ∃ kd, o = .err kd) (ls : List LCfg)
+    (hq : ∀ l ∈ ls, quiet ctx o l = true) (k : Nat) (s : List Out) :
+    denote ctx ls k (o :: s) = some (passAll ls (answerOf o (k + 1)), k + 1, s) := by
+  induction ls with
+  | nil =>
+    rcases ho with rfl | ⟨kd, rfl⟩ <;> simp [denote, base, passAll, answerOf]
+  | cons l tl ih =>
+    have hin := ih (fun l' hl' => hq l' (by simp [hl']))
+    have hl := hq l (by simp)
+    obtain ⟨hok, herr⟩ := passAll_shape tl o (k + 1)
+    simp only [denote, passAll, List.foldr_cons] at hin ⊢
+    rcases ho with rfl | ⟨kd, rfl⟩
+    · -- a success passes every layer untouched
+      have h1 := hok rfl
+      simp only [passAll] at h1
+      rw [h1] at hin ⊢
+      cases l with
+      | wrap name => simp [applyL, through, hin, passOne, Ans.mapErr]
+      | bare => simp [applyL, hin, passOne]
+      | guard name cap wait =>
+        have : ctx.demand ≤ cap ∨ ctx.span < wait := by simpa [quiet] using hl
+        simp [applyL, this, through, hin, passOne, Ans.mapErr]
+      | limiter name t =>
+        have : ctx.span < t := by simpa [quiet] using hl
+        simp [applyL, this, through, hin, passOne, Ans.mapErr]
+      | retry max p =>
+        cases hm : max - 1 with
+        | zero => simp [applyL, hm, retryGo, hin, passOne]
+        | succ m => simp [applyL, hm, retryGo, hin, passOne]
+      | fallback st p => simp [applyL, hin, passOne, Ans.mapErr]
+      | hedge n d =>
+        by_cases hn : n ≤ 1
+        · simp [applyL, hn, through, hin, passOne, Ans.mapErr]
+        · cases d with
+          | none => simp [quiet, hn] at hl
+          | some dd =>
+            have : ctx.span < dd := by simpa [quiet, hn] using hl
+            simp [applyL, hn, this, hin, passOne, Ans.mapErr]
+      | reconnect max policy retry => simp [applyL, reconGo, hin, passOne, Ans.mapErr]
+      | blackbox => simp [quiet] at hl
+    · -- an error no layer acts on comes back under the pass-through variants
+      obtain ⟨e, he, hk, _⟩ := herr kd rfl
+      simp only [passAll] at he
+      rw [he] at hin ⊢
+      cases l with
+      | wrap name => simp [applyL, through, hin, passOne, Ans.mapErr]
+      | bare => simp [applyL, hin, passOne]
+      | guard name cap wait =>
+        have : ctx.demand ≤ cap ∨ ctx.span < wait := by simpa [quiet] using hl
+        simp [applyL, this, through, hin, passOne, Ans.mapErr]
+      | limiter name t =>
+        have : ctx.span < t := by simpa [quiet] using hl
+        simp [applyL, this, through, hin, passOne, Ans.mapErr]
+      | retry max p =>
+        have hl' : max ≤ 1 ∨ p.holds kd = false := by simpa [quiet, errKind] using hl
+        cases hm : max - 1 with
+        | zero => simp [applyL, hm, retryGo, hin, passOne]
+        | succ m =>
+          have hp : p.holds e.kind = false := by
+            rcases hl' with h | h
+            · omega
+            · rw [hk]; exact h
+          simp [applyL, hm, retryGo, hin, hp, passOne]
+      | fallback st p =>
+        have hp : p.holds e.kind = false := by rw [hk]; simpa [quiet, errKind] using hl
+        simp [applyL, hin, hp, passOne, Ans.mapErr]
+      | hedge n d =>
+        have hn : n ≤ 1 := by simpa [quiet] using hl
+        simp [applyL, hn, through, hin, passOne, Ans.mapErr]
+      | reconnect max policy retry =>
+        have hne : (e.kind != 1) = true := by rw [hk]; simpa [quiet, errKind] using hl
+        simp [applyL, reconGo, hin, hne, passOne, Ans.mapErr]
+      | blackbox => simp [quiet] at hl
+
+end TR.Stack
+
+/-! ## answers at the boundaries: what an accepted layer has done -/
+
+namespace TR.Stack
+
+theorem takeFirst_some {α : Type} (p : α → Bool) : ∀ (l : List α) (x : α) (l' : List α),
+    takeFirst p l = some (x, l') → x ∈ l ∧ p x = true ∧ ∀ y ∈ l', y ∈ l := by
+  intro l
+  induction l with
+  | nil => intro x l' h; simp [takeFirst] at h
+  | cons a tl ih =>
+    intro x l' h
+    simp only [takeFirst] at h
+    by_cases hp : p a = true
+    · simp only [hp, if_true, Option.some.injEq, Prod.mk.injEq] at h
+      obtain ⟨rfl, rfl⟩ := h
+      exact ⟨by simp, hp, fun y hy => by simp [hy]⟩
+    · simp only [hp] at h
+      cases ht : takeFirst p tl with
+      | none => simp [ht] at h
+      | some r =>
+        obtain ⟨y, tl'⟩ := r
+        simp only [ht, Bool.false_eq_true, if_false, Option.some.injEq, Prod.mk.injEq] at h
+        obtain ⟨rfl, rfl⟩ := h
+        obtain ⟨h1, h2, h3⟩ := ih y tl' ht
+        refine ⟨by simp [h1], h2, ?_⟩
+        intro z hz
+        simp only [List.mem_cons] at hz ⊢
+        rcases hz with hz | hz
+        · exact Or.inl hz
+        · exact Or.inr (h3 z hz)
+
+theorem takeFirst_never {α : Type} (l : List α) : takeFirst (fun _ => false) l = none := by
+  induction l with
+  | nil => rfl
+  | cons a tl ih => simp [takeFirst, ih]
+
+/-- what the bookkeeping of answers keeps true, in every configuration -/
+structure RInv (s : RSt) : Prop where
+  gotSeen : ∀ g ∈ s.got, (g.tag, g.r) ∈ s.seen
+  flyEq   : ∀ t, s.ir t + s.fly t = s.ic t
+  heldEq  : ∀ t, s.ors t + s.held t + s.re t = s.ir t
+  ansLe   : ∀ t, s.ors t + s.own t ≤ s.oc t
+
+theorem rinv_init : RInv {} := ⟨by intro g h; simp at h, by intro t; rfl, by intro t; rfl, by intro t; simp⟩
+
+theorem rinv_launch (s : RSt) (t att : Nat) (hi : RInv s) : RInv (launch s t att) := by
+  refine ⟨hi.gotSeen, ?_, hi.heldEq, hi.ansLe⟩
+  intro t'
+  have := hi.flyEq t'
+  by_cases ht : t' = t
+  · subst ht; simp [launch, upd]; omega
+  · simp [launch, upd, ht]; omega
+
+theorem rinv_innerCall (c : LCfg) (s s' : RSt) (t : Nat) (hi : RInv s) (hs : innerCallR c s t = some s') : RInv s' := by
+  unfold innerCallR at hs
+  split at hs
+  · cases hs; exact ⟨hi.gotSeen, hi.flyEq, hi.heldEq, hi.ansLe⟩
+  · split at hs
+    · cases hs
+      exact rinv_launch _ _ _ ⟨hi.gotSeen, hi.flyEq, hi.heldEq, hi.ansLe⟩
+    · split at hs
+      · rename_i g got' htf
+        split at hs
+        · rename_i hheld
+          obtain ⟨hheld, _⟩ := hheld
+          cases hs
+          obtain ⟨_, _, hsub⟩ := takeFirst_some _ _ _ _ htf
+          refine rinv_launch _ _ _ ⟨fun g' hg' => hi.gotSeen g' (hsub g' hg'), hi.flyEq, ?_, hi.ansLe⟩
+          intro t'
+          have := hi.heldEq t'
+          by_cases ht : t' = t
+          · subst ht; simp [upd]; omega
+          · simp [upd, ht]; omega
+        · cases hs
+      · split at hs
+        · cases hs
+          exact rinv_launch _ _ _ ⟨hi.gotSeen, hi.flyEq, hi.heldEq, hi.ansLe⟩
+        · cases hs
+
+theorem rinv_innerRet (c : LCfg) (s s' : RSt) (k t : Nat) (r : RVal) (hi : RInv s)
+    (hs : innerRetR c s k t r = some s') : RInv s' := by
+  unfold innerRetR at hs
+  split at hs
+  · split at hs
+    · rename_i hfly
+      cases hs
+      refine ⟨?_, ?_, ?_, hi.ansLe⟩
+      · intro g hg
+        simp only [List.mem_cons] at hg ⊢
+        rcases hg with rfl | hg
+        · exact Or.inl rfl
+        · exact Or.inr (hi.gotSeen g hg)
+      · intro t'
+        have := hi.flyEq t'
+        by_cases ht : t' = t
+        · subst ht; simp [upd]; omega
+        · simp [upd, ht]; omega
+      · intro t'
+        have := hi.heldEq t'
+        by_cases ht : t' = t
+        · subst ht; simp [upd]; omega
+        · simp [upd, ht]; omega
+    · cases hs
+  · split at hs
+    · cases hs; exact hi
+    · cases hs
+
+theorem rinv_outerRet (c : LCfg) (s s' : RSt) (t : Nat) (ro : RVal) (hi : RInv s)
+    (hs : outerRetR c s t ro = some s') : RInv s' := by
+  unfold outerRetR at hs
+  split at hs
+  · cases hs; exact hi
+  · split at hs
+    · rename_i hlt
+      split at hs
+      · rename_i g got' htf
+        split at hs
+        · rename_i hheld
+          cases hs
+          obtain ⟨_, _, hsub⟩ := takeFirst_some _ _ _ _ htf
+          refine ⟨fun g' hg' => hi.gotSeen g' (hsub g' hg'), hi.flyEq, ?_, ?_⟩
+          · intro t'
+            have := hi.heldEq t'
+            by_cases ht : t' = t
+            · subst ht; simp [upd]; omega
+            · simp [upd, ht]; omega
+          · intro t'
+            have := hi.ansLe t'
+            by_cases ht : t' = t
+            · subst ht; simp [upd]; omega
+            · simp [upd, ht]; omega
+        · cases hs
+      · split at hs
+        · cases hs
+          refine ⟨hi.gotSeen, hi.flyEq, hi.heldEq, ?_⟩
+          intro t'
+          have := hi.ansLe t'
+          by_cases ht : t' = t
+          · subst ht; simp [upd]; omega
+          · simp [upd, ht]; omega
+        · cases hs
+    · cases hs
+
+theorem rinv_step (c : LCfg) (s s' : RSt) (x : XIn) (hi : RInv s) (hs : s.step c x = some s') : RInv s' := by
+  cases x with
+  | outer e =>
+    cases e with
+    | ev e =>
+      cases e with
+      | call i t =>
+        simp only [RSt.step, Option.some.injEq] at hs
+        subst hs
+        refine ⟨hi.gotSeen, hi.flyEq, hi.heldEq, ?_⟩
+        intro t'
+        have := hi.ansLe t'
+        by_cases ht : t' = t
+        · subst ht; simp [upd]; omega
+        · simp [upd, ht]; omega
+      | clone a b => simp only [RSt.step, Option.some.injEq] at hs; subst hs; exact hi
+      | poll a r => simp only [RSt.step, Option.some.injEq] at hs; subst hs; exact hi
+    | ret k t ro => exact rinv_outerRet c s s' t ro hi (by simpa [RSt.step] using hs)
+  | inner e =>
+    cases e with
+    | ev e =>
+      cases e with
+      | call i t => exact rinv_innerCall c s s' t hi (by simpa [RSt.step] using hs)
+      | clone a b => simp only [RSt.step, Option.some.injEq] at hs; subst hs; exact hi
+      | poll a r =>
+        cases r <;> simp only [RSt.step, Option.some.injEq] at hs <;> subst hs
+        · exact hi
+        · exact hi
+        · exact ⟨hi.gotSeen, hi.flyEq, hi.heldEq, hi.ansLe⟩
+    | ret k t r => exact rinv_innerRet c s s' k t r hi (by simpa [RSt.step] using hs)
+
+theorem rinv_run (c : LCfg) (l : List XIn) : ∀ (s s' : RSt), RInv s → RSt.run c s l = some s' → RInv s' := by
+  induction l with
+  | nil => intro s s' hi h; simp only [RSt.run, Option.some.injEq] at h; subst h; exact hi
+  | cons x tl ih =>
+    intro s s' hi h
+    simp only [RSt.run] at h
+    cases hx : s.step c x with
+    | none => simp [hx] at h
+    | some s1 => simp only [hx] at h; exact ih s1 s' (rinv_step c s s1 x hi hx) h
+
+end TR.Stack
+
+namespace TR.Stack
+
+/-! ### the counters are the counts of the events -/
+
+/-- how the counters of tag `t'` moved in a step: by `a b c d` (outer calls, inner calls, inner answers, answers handed up) -/
+def Moved (s s' : RSt) (t' a b c d : Nat) : Prop :=
+  s'.oc t' = s.oc t' + a ∧ s'.ic t' = s.ic t' + b ∧ s'.ir t' = s.ir t' + c ∧ s'.ors t' + s'.own t' = s.ors t' + s.own t' + d
+
+theorem moved_launch (s : RSt) (t att t' : Nat) : Moved s (launch s t att) t' 0 (if t = t' then 1 else 0) 0 0 := by
+  by_cases ht : t = t'
+  · subst ht; simp [Moved, launch, upd]
+  · have ht' : ¬ t' = t := fun h => ht h.symm
+    simp [Moved, launch, upd, ht, ht']
+
+theorem moved_innerCall (c : LCfg) (hc : c ≠ .blackbox) (s s' : RSt) (t t' : Nat) (hs : innerCallR c s t = some s') :
+    Moved s s' t' 0 (if t = t' then 1 else 0) 0 0 := by
+  unfold innerCallR at hs
+  simp only [hc, if_false] at hs
+  split at hs
+  · cases hs; exact moved_launch _ _ _ _
+  · split at hs
+    · split at hs
+      · cases hs; exact moved_launch _ _ _ _
+      · cases hs
+    · split at hs
+      · cases hs; exact moved_launch _ _ _ _
+      · cases hs
+
+theorem moved_innerRet (c : LCfg) (hc : c ≠ .blackbox) (s s' : RSt) (k t t' : Nat) (r : RVal)
+    (hs : innerRetR c s k t r = some s') : Moved s s' t' 0 0 (if t = t' then 1 else 0) 0 := by
+  unfold innerRetR at hs
+  split at hs
+  · split at hs
+    · cases hs
+      by_cases ht : t = t'
+      · subst ht; simp [Moved, upd]
+      · have ht' : ¬ t' = t := fun h => ht h.symm
+        simp [Moved, upd, ht, ht']
+    · cases hs
+  · simp [hc] at hs
+
+theorem moved_outerRet (c : LCfg) (hc : c ≠ .blackbox) (s s' : RSt) (t t' : Nat) (ro : RVal)
+    (hs : outerRetR c s t ro = some s') : Moved s s' t' 0 0 0 (if t = t' then 1 else 0) := by
+  unfold outerRetR at hs
+  simp only [hc, if_false] at hs
+  split at hs
+  · split at hs
+    · split at hs
+      · cases hs
+        by_cases ht : t = t'
+        · subst ht; simp [Moved, upd]; omega
+        · have ht' : ¬ t' = t := fun h => ht h.symm
+          simp [Moved, upd, ht, ht']
+      · cases hs
+    · split at hs
+      · cases hs
+        by_cases ht : t = t'
+        · subst ht; simp [Moved, upd]; omega
+        · have ht' : ¬ t' = t := fun h => ht h.symm
+          simp [Moved, upd, ht, ht']
+      · cases hs
+  · cases hs
+
+theorem moved_step (c : LCfg) (hc : c ≠ .blackbox) (s s' : RSt) (x : XIn) (t' : Nat) (hs : s.step c x = some s') :
+    Moved s s' t' (cntOC t' [x]) (cntIC t' [x]) (cntIR t' [x]) (cntOR t' [x]) := by
+  cases x with
+  | outer e =>
+    cases e with
+    | ev e =>
+      cases e with
+      | call i t =>
+        simp only [RSt.step, Option.some.injEq] at hs
+        subst hs
+        by_cases ht : t = t'
+        · subst ht; simp [Moved, upd, cntOC, cntIC, cntIR, cntOR]
+        · have ht' : ¬ t' = t := fun h => ht h.symm
+          simp [Moved, upd, cntOC, cntIC, cntIR, cntOR, ht, ht']
+      | clone a b => simp only [RSt.step, Option.some.injEq] at hs; subst hs; simp [Moved, cntOC, cntIC, cntIR, cntOR]
+      | poll a r => simp only [RSt.step, Option.some.injEq] at hs; subst hs; simp [Moved, cntOC, cntIC, cntIR, cntOR]
+    | ret k t ro =>
+      have := moved_outerRet c hc s s' t t' ro (by simpa [RSt.step] using hs)
+      simpa [cntOC, cntIC, cntIR, cntOR] using this
+  | inner e =>
+    cases e with
+    | ev e =>
+      cases e with
+      | call i t =>
+        have := moved_innerCall c hc s s' t t' (by simpa [RSt.step] using hs)
+        simpa [cntOC, cntIC, cntIR, cntOR] using this
+      | clone a b => simp only [RSt.step, Option.some.injEq] at hs; subst hs; simp [Moved, cntOC, cntIC, cntIR, cntOR]
+      | poll a r =>
+        cases r <;> simp only [RSt.step, Option.some.injEq] at hs <;> subst hs <;> simp [Moved, cntOC, cntIC, cntIR, cntOR]
+    | ret k t r =>
+      have := moved_innerRet c hc s s' k t t' r (by simpa [RSt.step] using hs)
+      simpa [cntOC, cntIC, cntIR, cntOR] using this
+
+theorem cnt_cons (t : Nat) (x : XIn) (tl : List XIn) :
+    cntOC t (x :: tl) = cntOC t [x] + cntOC t tl ∧ cntIC t (x :: tl) = cntIC t [x] + cntIC t tl ∧
+    cntIR t (x :: tl) = cntIR t [x] + cntIR t tl ∧ cntOR t (x :: tl) = cntOR t [x] + cntOR t tl := by
+  cases x with
+  | outer e =>
+    cases e with
+    | ev e => cases e <;> simp [cntOC, cntIC, cntIR, cntOR]
+    | ret k t' r => simp [cntOC, cntIC, cntIR, cntOR]
+  | inner e =>
+    cases e with
+    | ev e => cases e <;> simp [cntOC, cntIC, cntIR, cntOR]
+    | ret k t' r => simp [cntOC, cntIC, cntIR, cntOR]
+
+theorem moved_run (c : LCfg) (hc : c ≠ .blackbox) (t' : Nat) (l : List XIn) : ∀ (s s' : RSt), RSt.run c s l = some s' →
+    Moved s s' t' (cntOC t' l) (cntIC t' l) (cntIR t' l) (cntOR t' l) := by
+  induction l with
+  | nil => intro s s' h; simp only [RSt.run, Option.some.injEq] at h; subst h; simp [Moved, cntOC, cntIC, cntIR, cntOR]
+  | cons x tl ih =>
+    intro s s' h
+    simp only [RSt.run] at h
+    cases hx : s.step c x with
+    | none => simp [hx] at h
+    | some s1 =>
+      simp only [hx] at h
+      obtain ⟨a1, a2, a3, a4⟩ := moved_step c hc s s1 x t' hx
+      obtain ⟨b1, b2, b3, b4⟩ := ih s1 s' h
+      obtain ⟨c1, c2, c3, c4⟩ := cnt_cons t' x tl
+      refine ⟨?_, ?_, ?_, ?_⟩ <;> omega
+
+/-! ### at most once -/
+
+/-- in a configuration that allows one attempt per call, the inner calls and the calls still to be forwarded never
+outnumber the outer calls, and no hedge has room -/
+def SInv (s : RSt) : Prop := ∀ t, s.ic t + s.wait t ≤ s.oc t ∧ s.spare t = 0
+
+theorem hedgeN_single (c : LCfg) (h : single c = true) : hedgeN c - 1 = 0 := by
+  cases c <;> simp [hedgeN, single] at h ⊢
+  omega
+
+theorem room_single (c : LCfg) (h : single c = true) (s : RSt) (t : Nat) (hr : room c s t = true) : s.ic t < s.oc t := by
+  cases c with
+  | retry max p =>
+    have hm : max ≤ 1 := by simpa [single] using h
+    have : Nat.max max 1 = 1 := by simp [Nat.max_def]; omega
+    simp only [room, this, Nat.one_mul, decide_eq_true_eq] at hr
+    exact hr
+  | reconnect max policy retry =>
+    simp only [single, Bool.or_eq_true, Bool.not_eq_true', beq_iff_eq] at h
+    simp only [room, Bool.and_eq_true] at hr
+    obtain ⟨⟨hp, hrt⟩, hm⟩ := hr
+    rcases h with (h | h) | h
+    · rw [h] at hp; cases hp
+    · rw [h] at hrt; cases hrt
+    · subst h; simpa using hm
+  | wrap n => simp [room] at hr
+  | bare => simp [room] at hr
+  | guard n a b => simp [room] at hr
+  | limiter n a => simp [room] at hr
+  | fallback a b => simp [room] at hr
+  | hedge a b => simp [room] at hr
+  | blackbox => simp [room] at hr
+
+theorem sinv_launch (s : RSt) (t att : Nat) (h : ∀ t', (launch s t att).ic t' + s.wait t' ≤ s.oc t' ∧ s.spare t' = 0) :
+    SInv (launch s t att) := by
+  intro t'; exact h t'
+
+theorem sinv_step (c : LCfg) (hsg : single c = true) (s s' : RSt) (x : XIn) (hi : SInv s) (hs : s.step c x = some s') :
+    SInv s' := by
+  have hc : c ≠ .blackbox := by intro h; subst h; simp [single] at hsg
+  cases x with
+  | outer e =>
+    cases e with
+    | ev e =>
+      cases e with
+      | call i t =>
+        simp only [RSt.step, Option.some.injEq] at hs
+        subst hs
+        intro t'
+        have := hi t'
+        by_cases ht : t' = t
+        · subst ht; simp [upd]; omega
+        · simp [upd, ht]; omega
+      | clone a b => simp only [RSt.step, Option.some.injEq] at hs; subst hs; exact hi
+      | poll a r => simp only [RSt.step, Option.some.injEq] at hs; subst hs; exact hi
+    | ret k t ro =>
+      have hs' : outerRetR c s t ro = some s' := by simpa [RSt.step] using hs
+      unfold outerRetR at hs'
+      simp only [hc, if_false] at hs'
+      split at hs'
+      · split at hs'
+        · split at hs'
+          · cases hs'; exact hi
+          · cases hs'
+        · split at hs'
+          · cases hs'
+            intro t'
+            have := hi t'
+            by_cases ht : t' = t
+            · subst ht; simp [upd]; omega
+            · simp [upd, ht]; omega
+          · cases hs'
+      · cases hs'
+  | inner e =>
+    cases e with
+    | ev e =>
+      cases e with
+      | call i t =>
+        have hs' : innerCallR c s t = some s' := by simpa [RSt.step] using hs
+        unfold innerCallR at hs'
+        simp only [hc, if_false] at hs'
+        split at hs'
+        · rename_i hw
+          cases hs'
+          intro t'
+          have := hi t'
+          by_cases ht : t' = t
+          · subst ht; simp [launch, upd, hedgeN_single c hsg]; omega
+          · simp [launch, upd, ht]; omega
+        · rename_i hw
+          split at hs'
+          · split at hs'
+            · rename_i hg
+              cases hs'
+              have hlt := room_single c hsg s t hg.2
+              intro t'
+              have := hi t'
+              by_cases ht : t' = t
+              · subst ht; simp [launch, upd]; omega
+              · simp [launch, upd, ht]; omega
+            · cases hs'
+          · split at hs'
+            · rename_i hsp
+              have := (hi t).2
+              omega
+            · cases hs'
+      | clone a b => simp only [RSt.step, Option.some.injEq] at hs; subst hs; exact hi
+      | poll a r => cases r <;> simp only [RSt.step, Option.some.injEq] at hs <;> subst hs <;> exact hi
+    | ret k t r =>
+      have hs' : innerRetR c s k t r = some s' := by simpa [RSt.step] using hs
+      unfold innerRetR at hs'
+      split at hs'
+      · split at hs'
+        · cases hs'; exact hi
+        · cases hs'
+      · simp [hc] at hs'
+
+theorem sinv_run (c : LCfg) (hsg : single c = true) (l : List XIn) : ∀ (s s' : RSt), SInv s → RSt.run c s l = some s' → SInv s' := by
+  induction l with
+  | nil => intro s s' hi h; simp only [RSt.run, Option.some.injEq] at h; subst h; exact hi
+  | cons x tl ih =>
+    intro s s' hi h
+    simp only [RSt.run] at h
+    cases hx : s.step c x with
+    | none => simp [hx] at h
+    | some s1 => simp only [hx] at h; exact ih s1 s' (sinv_step c hsg s s1 x hi hx) h
+
+end TR.Stack
+
+namespace TR.Stack
+
+/-! ### every answer handed up is made of an inner answer, or is the layer's own -/
+
+theorem seen_innerCall (c : LCfg) (s s' : RSt) (t : Nat) (hs : innerCallR c s t = some s') : s'.seen = s.seen := by
+  unfold innerCallR at hs
+  split at hs
+  · cases hs; rfl
+  · split at hs
+    · cases hs; rfl
+    · split at hs
+      · split at hs
+        · cases hs; rfl
+        · cases hs
+      · split at hs
+        · cases hs; rfl
+        · cases hs
+
+theorem seen_outerRet (c : LCfg) (s s' : RSt) (t : Nat) (ro : RVal) (hs : outerRetR c s t ro = some s') : s'.seen = s.seen := by
+  unfold outerRetR at hs
+  split at hs
+  · cases hs; rfl
+  · split at hs
+    · split at hs
+      · split at hs
+        · cases hs; rfl
+        · cases hs
+      · split at hs
+        · cases hs; rfl
+        · cases hs
+    · cases hs
+
+theorem seen_step (c : LCfg) (s s' : RSt) (x : XIn) (hs : s.step c x = some s') :
+    ∀ p ∈ s'.seen, p ∈ s.seen ∨ ∃ k, x = .inner (.ret k p.1 p.2) := by
+  intro p hp
+  cases x with
+  | outer e =>
+    cases e with
+    | ev e =>
+      cases e <;> simp only [RSt.step, Option.some.injEq] at hs <;> subst hs <;> exact Or.inl hp
+    | ret k t ro =>
+      have := seen_outerRet c s s' t ro (by simpa [RSt.step] using hs)
+      rw [this] at hp; exact Or.inl hp
+  | inner e =>
+    cases e with
+    | ev e =>
+      cases e with
+      | call i t =>
+        have := seen_innerCall c s s' t (by simpa [RSt.step] using hs)
+        rw [this] at hp; exact Or.inl hp
+      | clone a b => simp only [RSt.step, Option.some.injEq] at hs; subst hs; exact Or.inl hp
+      | poll a r => cases r <;> simp only [RSt.step, Option.some.injEq] at hs <;> subst hs <;> exact Or.inl hp
+    | ret k t r =>
+      have hs' : innerRetR c s k t r = some s' := by simpa [RSt.step] using hs
+      unfold innerRetR at hs'
+      split at hs'
+      · split at hs'
+        · cases hs'
+          simp only [List.mem_cons] at hp
+          rcases hp with rfl | hp
+          · exact Or.inr ⟨k, rfl⟩
+          · exact Or.inl hp
+        · cases hs'
+      · split at hs'
+        · cases hs'; exact Or.inl hp
+        · cases hs'
+
+theorem outerRet_made_of (c : LCfg) (hc : c ≠ .blackbox) (s s' : RSt) (t : Nat) (ro : RVal)
+    (hs : outerRetR c s t ro = some s') :
+    (∃ g ∈ s.got, g.tag = t ∧ answerOK c (s.multi t) t g ro = true) ∨ ownOK c s t ro = true := by
+  unfold outerRetR at hs
+  simp only [hc, if_false] at hs
+  split at hs
+  · split at hs
+    · rename_i g got' htf
+      obtain ⟨hm, hp, _⟩ := takeFirst_some _ _ _ _ htf
+      simp only [Bool.and_eq_true, beq_iff_eq] at hp
+      exact Or.inl ⟨g, hm, hp.1, hp.2⟩
+    · split at hs
+      · rename_i ho; exact Or.inr ho
+      · cases hs
+  · cases hs
+
+/-- **Every answer a layer hands up is made of an answer of its inner service** to the same request, by the rule of the
+layer's configuration — or is the layer's own (a refusal, a stored answer, a readiness error met by an attempt). -/
+theorem answers_made_of (c : LCfg) (hc : c ≠ .blackbox) (l : List XIn) : ∀ (s s' : RSt), RInv s → RSt.run c s l = some s' →
+    ∀ k t ro, XIn.outer (.ret k t ro) ∈ l →
+      (∃ ri a m, ((t, ri) ∈ s.seen ∨ ∃ k', XIn.inner (.ret k' t ri) ∈ l) ∧ answerOK c m t ⟨t, a, ri⟩ ro = true) ∨
+      ∃ s0, ownOK c s0 t ro = true := by
+  induction l with
+  | nil => intro s s' _ _ k t ro h; simp at h
+  | cons x tl ih =>
+    intro s s' hi h k t ro hmem
+    simp only [RSt.run] at h
+    cases hx : s.step c x with
+    | none => simp [hx] at h
+    | some s1 =>
+      simp only [hx] at h
+      simp only [List.mem_cons] at hmem
+      rcases hmem with rfl | hmem
+      · -- the answer is handed up in this very step
+        have hx' : outerRetR c s t ro = some s1 := by simpa [RSt.step] using hx
+        rcases outerRet_made_of c hc s s1 t ro hx' with ⟨g, hg, hgt, hok⟩ | ho
+        · left
+          have := hi.gotSeen g hg
+          obtain ⟨gt, ga, gr⟩ := g
+          simp only at hgt this hok
+          subst hgt
+          exact ⟨gr, ga, s.multi gt, Or.inl this, hok⟩
+        · exact Or.inr ⟨s, ho⟩
+      · rcases ih s1 s' (rinv_step c s s1 x hi hx) h k t ro hmem with ⟨ri, a, m, hsrc, hok⟩ | ho
+        · left
+          refine ⟨ri, a, m, ?_, hok⟩
+          rcases hsrc with hs1 | ⟨k', hk'⟩
+          · rcases seen_step c s s1 x hx (t, ri) hs1 with h0 | ⟨k', rfl⟩
+            · exact Or.inl h0
+            · exact Or.inr ⟨k', by simp⟩
+          · exact Or.inr ⟨k', by simp [hk']⟩
+        · exact Or.inr ho
+
+/-! ### the views of a global log -/
+
+theorem outer_mem_xview (j : Nat) (e : XEv) (g : List XG) : XIn.outer e ∈ xview j g ↔ e ∈ xproj j g := by
+  induction g with
+  | nil => simp [xview, xproj]
+  | cons a tl ih =>
+    obtain ⟨b, e'⟩ := a
+    by_cases h1 : b = j
+    · simp [xview, xproj, h1, ih]
+    · by_cases h2 : b = j + 1
+      · simp [xview, xproj, h1, h2, ih]
+      · simp [xview, xproj, h1, h2, ih]
+
+theorem inner_mem_xview (j : Nat) (e : XEv) (g : List XG) : XIn.inner e ∈ xview j g ↔ e ∈ xproj (j + 1) g := by
+  induction g with
+  | nil => simp [xview, xproj]
+  | cons a tl ih =>
+    obtain ⟨b, e'⟩ := a
+    by_cases h1 : b = j
+    · have : ¬ b = j + 1 := by omega
+      simp [xview, xproj, h1, ih]
+    · by_cases h2 : b = j + 1
+      · simp [xview, xproj, h2, ih]
+      · simp [xview, xproj, h1, h2, ih]
+
+theorem cntOC_xview (t j : Nat) (g : List XG) : cntOC t (xview j g) = calls t (xproj j g) := by
+  induction g with
+  | nil => rfl
+  | cons a tl ih =>
+    obtain ⟨b, e⟩ := a
+    by_cases h1 : b = j
+    · subst h1
+      cases e with
+      | ev e => cases e <;> simp [xview, xproj, cntOC, calls, ih]
+      | ret k t' r => simp [xview, xproj, cntOC, calls, ih]
+    · by_cases h2 : b = j + 1
+      · cases e with
+        | ev e => cases e <;> simp [xview, xproj, cntOC, calls, ih, h1, h2]
+        | ret k t' r => simp [xview, xproj, cntOC, calls, ih, h1, h2]
+      · simp [xview, xproj, h1, h2, ih]
+
+theorem cntIC_xview (t j : Nat) (g : List XG) : cntIC t (xview j g) = calls t (xproj (j + 1) g) := by
+  induction g with
+  | nil => rfl
+  | cons a tl ih =>
+    obtain ⟨b, e⟩ := a
+    by_cases h1 : b = j
+    · have h3 : ¬ b = j + 1 := by omega
+      cases e with
+      | ev e => cases e <;> simp [xview, xproj, cntIC, calls, ih, h1]
+      | ret k t' r => simp [xview, xproj, cntIC, calls, ih, h1]
+    · by_cases h2 : b = j + 1
+      · subst h2
+        cases e with
+        | ev e => cases e <;> simp [xview, xproj, cntIC, calls, ih]
+        | ret k t' r => simp [xview, xproj, cntIC, calls, ih]
+      · simp [xview, xproj, h1, h2, ih]
+
+/-- one layer that allows one attempt per call: at most as many inner calls for a request as outer calls -/
+theorem layer_forwards_at_most_once (c : LCfg) (hsg : single c = true) (l : List XIn) (s' : RSt)
+    (h : RSt.run c {} l = some s') (t : Nat) : cntIC t l ≤ cntOC t l := by
+  have hc : c ≠ .blackbox := by intro h; subst h; simp [single] at hsg
+  have h1 := sinv_run c hsg l {} s' (by intro t; simp) h t
+  obtain ⟨a1, a2, _, _⟩ := moved_run c hc t l {} s' h
+  simp only at a1 a2
+  omega
+
+/-- **Whole stacks forward at most once**: below any stack of layers none of which may re-issue a request, the wrapped
+service is called for a request at most as often as the stack was. -/
+theorem stack_forwards_at_most_once (g : List XG) (t : Nat) : ∀ (cfgs : List LCfg) (j : Nat), AcceptedFrom g cfgs j →
+    (∀ c ∈ cfgs, single c = true) → calls t (xproj (j + cfgs.length) g) ≤ calls t (xproj j g) := by
+  intro cfgs
+  induction cfgs with
+  | nil => intro j _ _; simp
+  | cons c cs ih =>
+    intro j hacc hs
+    obtain ⟨h1, h2⟩ := hacc
+    have := ih (j + 1) h2 (fun c' hc' => hs c' (by simp [hc']))
+    obtain ⟨s', hs'⟩ := Option.isSome_iff_exists.mp h1
+    have h3 := layer_forwards_at_most_once c (hs c (by simp)) _ s' hs' t
+    rw [cntIC_xview, cntOC_xview] at h3
+    have e : j + (c :: cs).length = j + 1 + cs.length := by simp; omega
+    rw [e]
+    omega
+
+theorem answerOK_pass (c : LCfg) (f : RVal → RVal) (hp : passR c = some f) (m : Bool) (t : Nat) (g : Got) (ro : RVal)
+    (h : answerOK c m t g ro = true) : ro = f g.r := by
+  cases c <;> simp [passR] at hp <;> subst hp <;> simpa [answerOK] using h
+
+/-- **Every answer at the top of a stack of pass-through layers is explained**: it is the wrapped service's answer to
+that request inside exactly the pass-through variants of the layers it came through, unless one of the layers gave it
+itself. -/
+theorem stack_answers_explained (g : List XG) (t : Nat) : ∀ (cfgs : List LCfg) (j : Nat), AcceptedFrom g cfgs j →
+    (∀ c ∈ cfgs, (passR c).isSome) → ∀ k r, XEv.ret k t r ∈ xproj j g → Explained g t cfgs j r := by
+  intro cfgs
+  induction cfgs with
+  | nil => intro j _ _ k r h; exact ⟨k, h⟩
+  | cons c cs ih =>
+    intro j hacc hp k r hmem
+    obtain ⟨h1, h2⟩ := hacc
+    obtain ⟨s', hs'⟩ := Option.isSome_iff_exists.mp h1
+    obtain ⟨f, hf⟩ := Option.isSome_iff_exists.mp (hp c (by simp))
+    have hc : c ≠ .blackbox := by intro h; subst h; simp [passR] at hf
+    have hm : XIn.outer (.ret k t r) ∈ xview j g := (outer_mem_xview j _ g).mpr hmem
+    rcases answers_made_of c hc _ {} s' rinv_init hs' k t r hm with ⟨ri, a, m, hsrc, hok⟩ | ho
+    · right
+      rcases hsrc with h0 | ⟨k', hk'⟩
+      · simp at h0
+      · have hin : XEv.ret k' t ri ∈ xproj (j + 1) g := (inner_mem_xview j _ g).mp hk'
+        have := answerOK_pass c f hf m t ⟨t, a, ri⟩ r hok
+        exact ⟨f, ri, hf, this, ih (j + 1) h2 (fun c' hc' => hp c' (by simp [hc'])) k' ri hin⟩
+    · exact Or.inl ho
+
+end TR.Stack
+
+/-! ## readiness errors surface -/
+
+namespace TR.Stack
+
+theorem ystep_lstep (y y' : YSt) (x : LIn) (h : y.step x = some y') : y.l.step x = some y'.l := by
+  unfold YSt.step at h
+  split at h
+  · split at h
+    · split at h
+      · cases hl : y.l.step _ with
+        | none => simp [hl] at h
+        | some l' => simp [hl] at h; subst h; rfl
+      · cases h
+    · cases h
+  · split at h
+    · cases h
+    · cases hl : y.l.step _ with
+      | none => simp [hl] at h
+      | some l' => simp [hl] at h; subst h; rfl
+    · cases hl : y.l.step x with
+      | none => simp [hl] at h
+      | some l' => simp [hl] at h; subst h; rfl
+
+theorem yrun_lrun (l : List LIn) : ∀ (y y' : YSt), YSt.run y l = some y' → LSt.run y.l l = some y'.l := by
+  induction l with
+  | nil => intro y y' h; simp only [YSt.run, Option.some.injEq] at h; subst h; rfl
+  | cons x tl ih =>
+    intro y y' h
+    simp only [YSt.run] at h
+    cases hx : y.step x with
+    | none => simp [hx] at h
+    | some y1 =>
+      simp only [hx] at h
+      simp only [LSt.run, ystep_lstep y y1 x hx]
+      exact ih y1 y' h
+
+/-- while a readiness error of a held inner instance has not been handed up, handing it up is all the layer can do -/
+theorem pending_error_must_surface (y y' : YSt) (i : Nat) (x : LIn) (hp : y.pend = some i) (h : y.step x = some y') :
+    ∃ o, x = .outer (.poll o .err) ∧ y.l.cur o = some i ∧ y'.pend = none := by
+  unfold YSt.step at h
+  rw [hp] at h
+  simp only at h
+  split at h
+  · rename_i o
+    split at h
+    · rename_i hc
+      cases hl : y.l.step (.outer (.poll o .err)) with
+      | none => simp [hl] at h
+      | some l' => simp [hl] at h; subst h; exact ⟨o, rfl, hc, rfl⟩
+    · cases h
+  · cases h
+
+/-- a layer answers `poll_ready` with an error only when the inner instance it holds for that caller has just failed -/
+theorem error_answer_needs_inner_error (y y' : YSt) (o : Nat) (h : y.step (.outer (.poll o .err)) = some y') :
+    ∃ i, y.pend = some i ∧ y.l.cur o = some i := by
+  unfold YSt.step at h
+  cases hp : y.pend with
+  | none => rw [hp] at h; simp at h
+  | some i =>
+    rw [hp] at h
+    simp only at h
+    split at h
+    · rename_i hc; exact ⟨i, rfl, hc⟩
+    · cases h
+
+/-- a failing `poll_ready` of a held inner instance sets the register -/
+theorem held_error_is_pending (y y' : YSt) (i : Nat) (hn : y.pend = none) (hh : heldBy y.l i = true)
+    (h : y.step (.inner (.poll i .err)) = some y') : y'.pend = some i := by
+  unfold YSt.step at h
+  rw [hn] at h
+  simp only at h
+  cases hl : y.l.step (.inner (.poll i .err)) with
+  | none => simp [hl] at h
+  | some l' => simp [hl, hh] at h; subst h; rfl
+
+end TR.Stack
